@@ -777,6 +777,50 @@ def _task_bus_victim(task):
                         cases.append(('%s/byte%d' % (kind, pos),
                                       base[:pos] + bytes([b])
                                       + base[pos + 1:]))
+        # well-formed messages whose names a bus has reason to look at: one
+        # long element followed by a character no name may hold, doubled
+        # separators, many short elements - in every name-carrying field
+        for n in (30, 60, 200):
+            long_ = 'a' * n
+            for field, vals in (
+                    ('path', ['/' + long_ + '!', '/' + long_ + '//x',
+                              '/' + '/'.join('ab' for _ in range(n)) + '!',
+                              '/' + long_ + '/']),
+                    ('interface', [long_ + '.' + long_ + '!',
+                                   '.'.join('ab' for _ in range(n)) + '-',
+                                   long_ + '..' + long_]),
+                    ('member', [long_ + '!', long_ + '.x']),
+                    ('destination', [long_ + '.' + long_ + '!',
+                                     ':1.' + long_ + '!',
+                                     '.'.join('a1' for _ in range(n))
+                                     + '..']),
+                    ('sender', [long_ + '.' + long_ + '!'])):
+                for v in vals:
+                    # (the reference encoder refuses invalid names: encode a
+                    # valid stand-in of the same length, then put the
+                    # hostile characters into the bytes)
+                    stand_in = {'path': '/' + 'q' * (len(v) - 1),
+                                'member': 'q' * len(v)}.get(
+                        field, ('q' * (len(v) // 2) + '.'
+                                + 'q' * (len(v) - len(v) // 2 - 1)))
+                    for mt, f in ((4, {'path': '/s', 'member': 'Sig',
+                                       'interface': 'a.b'}),
+                                  (1, {'path': '/o', 'member': 'M',
+                                       'destination': victim.busName})):
+                        f = dict(f)
+                        f[field] = stand_in
+                        raw = R.encode_message(mt, 5, f, 'u', [1])
+                        if raw.count(stand_in.encode()) != 1:
+                            raise core.HarnessError('stand-in not unique')
+                        cases.append(('name/%s/%d' % (field, n), raw.replace(
+                            stand_in.encode(), v.encode(), 1)))
+            ename = long_ + '.' + long_ + '!'
+            stand_in = 'q' * n + '.' + 'q' * (n + 1)
+            raw = R.encode_message(
+                3, 7, {'reply_serial': 1, 'destination': victim.busName,
+                       'error_name': stand_in})
+            cases.append(('name/error_name/%d' % n, raw.replace(
+                stand_in.encode(), ename.encode(), 1)))
         hostile = None
         k = 0
         for ci, (tag, raw) in enumerate(cases):
@@ -791,6 +835,35 @@ def _task_bus_victim(task):
             if hostile is not None:
                 hostile[0].connectionLost(fakes.lost_reason())
             hostile = raw_peer()
+            if tag.startswith('name/'):
+                # tried in a child process first: a pattern matcher that
+                # runs away inside C code cannot be interrupted from within
+                # the process, only be abandoned from outside
+                import os
+                import time
+                pid = os.fork()
+                if pid == 0:
+                    try:
+                        hostile[0].dataReceived(raw)
+                    except BaseException:
+                        pass
+                    os._exit(0)
+                t0 = time.time()
+                done = False
+                while time.time() - t0 < 30:
+                    if os.waitpid(pid, os.WNOHANG)[0]:
+                        done = True
+                        break
+                    time.sleep(0.01)
+                if not done:
+                    os.kill(pid, 9)
+                    os.waitpid(pid, 0)
+                    res.violation('%s/bus-victim/stalled/%s' % (PROP, tag),
+                                  'the bus did not come back within 30 s '
+                                  'from a %d byte message (%s): %s...'
+                                  % (len(raw), tag, raw[:64].hex()),
+                                  {'part': 'victim'}, size=len(raw))
+                    break
             try:
                 hostile[0].dataReceived(raw)
             except Exception:
